@@ -9,8 +9,11 @@ Model/Endpoint.v is compared after EVERY event (key lists of both tables include
 requires at every checkpoint len(_request_futures) = len(_result_types) = 0, and - observed only,
 Python's heap is not modelled - that after gc.collect() no sentinel object created inside a
 finished handler is still alive."""
+import gc
 import json
 import os
+import sys
+import weakref
 
 import core
 import sched
@@ -32,25 +35,107 @@ def _shift(ev, t0, j0, o0):
 
 def _rename(ev, k):
     """Outgoing ids are unique over the whole history (uuid4 in production)."""
-    if ev[0] == "send":
+    gen = lambda i: isinstance(i, str) and i.startswith("out-")
+    if ev[0] == "send" and gen(ev[1]):
         return ["send", "%s#%d" % (ev[1], k)]
-    if ev[0] == "recv" and ev[1]["t"] == "resp":
+    if ev[0] == "recv" and ev[1]["t"] == "resp" and gen(ev[1]["id"]):
         f = dict(ev[1])
         f["id"] = "%s#%d" % (f["id"], k)
         return ["recv", f]
     return ev
 
 
+# ---------------------------------------------------------------- memory probes (observed only)
+class _NullWriter:
+    def write(self, data):
+        pass
+
+    def close(self):
+        pass
+
+
+def _feed(proto, obj):
+    """What the read loop does with one frame."""
+    try:
+        proto.handle_message(json.loads(json.dumps(obj), object_hook=proto.structure_message))
+    except Exception:      # noqa
+        pass
+
+
+def probe_methods(n):
+    """n answered requests with pairwise distinct (unknown) method names on one endpoint; allocated
+    blocks after gc.collect() at the four quarters of the history."""
+    import logging
+    logging.disable(logging.CRITICAL)
+    from pygls.lsp.server import LanguageServer
+    srv = LanguageServer("probe", "v")
+    proto = srv.protocol
+    proto.set_writer(_NullWriter())
+    samples = []
+    for k in range(n):
+        _feed(proto, {"jsonrpc": "2.0", "id": k, "method": "x/m%d" % k, "params": {}})
+        if (k + 1) % (n // 4) == 0:
+            gc.collect()
+            samples.append(sys.getallocatedblocks())
+    return {"blocks": samples, "second_half_growth": samples[3] - samples[1],
+            "tables": len(proto._request_futures) + len(proto._result_types)}
+
+
+def probe_servers(ks):
+    """K short-lived servers, each handles a request and a notification and is dropped; how many
+    protocol objects are still alive after gc.collect()."""
+    import logging
+    logging.disable(logging.CRITICAL)
+    from pygls.lsp.server import LanguageServer
+    alive = []
+    for K in ks:
+        refs = []
+        for _ in range(K):
+            srv = LanguageServer("probe", "v")
+            proto = srv.protocol
+            proto.set_writer(_NullWriter())
+            _feed(proto, {"jsonrpc": "2.0", "id": 1, "method": "x/none"})
+            _feed(proto, {"jsonrpc": "2.0", "method": "initialized", "params": {}})
+            refs.append(weakref.ref(proto))
+            del srv, proto
+        gc.collect()
+        alive.append(sum(1 for r in refs if r() is not None))
+        del refs
+    return {"ks": list(ks), "alive": alive}
+
+
+def _run_any(case):
+    try:
+        if case.get("probe") == "methods":
+            return probe_methods(case["n"])
+        if case.get("probe") == "servers":
+            return probe_servers(case["ks"])
+    except BaseException as ex:     # noqa
+        return ["raise", type(ex).__name__, str(ex)[:200]]
+    return c01._run_one(case)
+
+
+# thresholds, calibrated on /repo HEAD (5 runs each): second-half growth of allocated blocks is within
+# +-60 for n = 2 000 and n = 20 000 (an unbounded per-method cache costs about 1 block per request: ~2 000 /
+# ~20 000); the default-sized lru_cache of get_message_type pins 64 of these protocol objects whatever K
+# (at most 128 cache rows, two lookups per server) - a bounded leak, not growth
+GROWTH_FLOOR, GROWTH_PER_REQUEST = 300, 0.05
+PINNED_MAX, PINNED_SLACK = 128, 8
+
+
 class C16(c01.C01):
     id = "C16"
-    modules = ["Proofs.EndpointFuts", "Proofs.EndpointXProofs", "Proofs.C16Proofs", "Proofs.OutgoingProofs", "Props.C16"]
+    modules = ["Proofs.EndpointFuts", "Proofs.EndpointXProofs", "Proofs.C16Proofs", "Proofs.OutgoingProofs", "Props.C16", "Proofs.LinkEndpointOutgoing"]
     obligations = ["fw_step", "fw_run", "fw_quiescent", "futs_subset_inflight", "table_bounded",
                    "tables_empty_at_quiescence", "osub_step", "outgoing_only_from_sends", "incoming_quiescent_empty",
                    "table_size_bounded", "runx_base", "fw_stepx", "fw_runx", "lax_runx", "at_most_one_reply_x", "inv_stepx",
                    "tables_empty_st", "table_bounded_st", "outgoing_only_from_sends_x", "incoming_quiescent_empty_x",
                    "C16_incoming", "C16_nonvacuous_x", "OutgoingProofs.rtypes_sub", "OutgoingProofs.K_run",
-                   "OutgoingProofs.C16_outgoing", "C16", "C16_nonvacuous"]
-    coq_targets = ["Props/C16.vo", "Extract/ExtractC16.vo"]
+                   "OutgoingProofs.C16_outgoing", "C16", "C16_nonvacuous",
+                   "LinkEndpointOutgoing.sim_stepx", "LinkEndpointOutgoing.link_run", "LinkEndpointOutgoing.link_observables",
+                   "LinkEndpointOutgoing.C16_composed", "LinkEndpointOutgoing.composed_needs_disjoint",
+                   "LinkEndpointOutgoing.composed_nonvacuous"]
+    coq_targets = ["Props/C16.vo", "Extract/ExtractC16.vo", "Proofs/LinkEndpointOutgoing.vo"]
     rule = ("one endpoint, one history of n incoming requests over {sync, async, thread} x {return, raise, raise rpc, "
             "unserialisable, cancelled} and m outgoing requests answered by {result, error, duplicate}; a checkpoint "
             "after every block; non-trivial = the history contains a raising handler, a cancelled request or an "
@@ -99,7 +184,9 @@ class C16(c01.C01):
             msgs.insert(rng.randint(0, len(msgs)),
                         ["recv", {"t": "notif", "tag": 1, "ver": True, "ps": "ok", "m": ["user", self._behav16(rng)]}])
         for a in range(0 if final else rng.choice([0, 0, 1, 1, 2])):
-            oid = "o%d" % a
+            # the id of an outgoing request: generated (uuid4 in production) or chosen by the caller
+            # (send_request(msg_id=...)): both JSON types, the falsy 0 and "" included
+            oid = ids.pop() if (ids and rng.random() < 0.5) else "out-%d" % a
             pos = rng.randint(0, len(msgs))
             msgs.insert(pos, ["send", oid])
             kind = rng.choice(["result", "error", "dup", "dup-error"])
@@ -165,6 +252,8 @@ class C16(c01.C01):
             for f in sorted(os.listdir(cdir)):
                 if f.endswith(".json"):
                     cases.extend(json.load(open(os.path.join(cdir, f))))
+        cases.append({"probe": "methods", "n": chk.n(2000, 20000)})
+        cases.append({"probe": "servers", "ks": chk.n([150, 300], [150, 300, 450])})
         rng = chk.rng
         sizes = chk.n([10, 10, 30, 100, 100, 300, 1000, 1000], [10, 100, 100, 1000, 1000, 3000, 10000])
         for a, n in enumerate(sizes):
@@ -178,13 +267,21 @@ class C16(c01.C01):
 
     # ---------------------------------------------------------------- implementation
     def run_impl(self, chk, cases):
-        res = super().run_impl(chk, sorted(cases, key=lambda c: -len(c["evs"])))
-        # restore the order (the long ones first keeps the 4 workers busy)
-        order = sorted(range(len(cases)), key=lambda k: -len(cases[k]["evs"]))
+        # the long ones first keeps the 4 workers busy; the memory probes run in the workers as well
+        weight = lambda c: 10 ** 9 if "probe" in c else len(c["evs"])
+        order = sorted(range(len(cases)), key=lambda k: -weight(cases[k]))
+        ordered = [cases[k] for k in order]
+        if len(cases) < 8:
+            res = [_run_any(c) for c in ordered]
+        else:
+            import multiprocessing as mp
+            with mp.get_context("fork").Pool(4) as pool:
+                res = pool.map(_run_any, ordered, chunksize=1)
         out = [None] * len(cases)
         for k, r in zip(order, res):
             out[k] = r
         growth = []
+        probes = [{"probe": c["probe"], "measured": r} for c, r in zip(cases, out) if "probe" in c]
         for c, r in zip(cases, out):
             if isinstance(r, dict) and "obs" in r and c.get("n_plus_m", 0) >= 100:
                 sz = [len(o["futs"]) + len(o["rtypes"]) for o in r["obs"]]
@@ -193,13 +290,22 @@ class C16(c01.C01):
                                "table_size_at_checkpoints": sorted({sz[k] for k in c.get("checkpoints", [])}),
                                "sentinels_alive_at_gc_points": sorted({a for _, a in r.get("gc", [])}),
                                "first_half_max": max(sz[:len(sz) // 2] or [0]), "second_half_max": max(sz[len(sz) // 2:] or [0])})
-        self.extra_coverage = {"growth": growth,
+        self.extra_coverage = {"growth": growth, "memory_probes": probes,
+                               "memory_thresholds": {"second_half_growth_blocks": "max(%d, %.2f * n)" % (GROWTH_FLOOR, GROWTH_PER_REQUEST),
+                                                     "pinned_protocols": "<= %d + %d, not growing with K" % (PINNED_MAX, PINNED_SLACK)},
                                "note": "table size and live sentinels as a function of history length: constant (0 at every "
                                        "checkpoint, maximum = requests in flight), independent of n + m"}
         return out
 
     # ---------------------------------------------------------------- model / reference
+    def model_input(self, case):
+        if "probe" in case:
+            return sched.encode_case({"cfg": {"writer": "blocking", "hook": "quiet", "wfail": None}, "evs": []})
+        return sched.encode_case(case)
+
     def model_output(self, case, toks):
+        if "probe" in case:
+            return {"M": None, "S": {"probe": case["probe"]}, "guard": True, "klass": None}
         obs, summ = sched.parse_run(toks, len(case["evs"]))
         for o in obs:
             o.pop("undef")
@@ -208,11 +314,22 @@ class C16(c01.C01):
         return {"M": {"obs": obs}, "S": S, "guard": True, "klass": None}
 
     def same(self, case, impl, M):
+        if "probe" in case:
+            return isinstance(impl, dict)            # no model of Python's heap: judged by S alone
         if not isinstance(impl, dict) or "anomalies" in impl:
             return False
         return core.canon(impl.get("obs")) == core.canon(M["obs"])
 
     def satisfies(self, case, impl, S):
+        if "probe" in case:
+            if not isinstance(impl, dict):
+                return False
+            if case["probe"] == "methods":
+                return (impl["tables"] == 0 and
+                        impl["second_half_growth"] <= max(GROWTH_FLOOR, GROWTH_PER_REQUEST * case["n"]))
+            alive = impl["alive"]
+            return (all(a <= PINNED_MAX + PINNED_SLACK for a in alive) and
+                    all(b <= a + PINNED_SLACK for a, b in zip(alive, alive[1:])))
         if not isinstance(impl, dict) or "obs" not in impl:
             return False
         obs = impl["obs"]
@@ -229,6 +346,8 @@ class C16(c01.C01):
         return True
 
     def nontrivial(self, case):
+        if "probe" in case:
+            return True
         for e in case["evs"]:
             if e[0] == "recv":
                 f = e[1]
@@ -242,6 +361,8 @@ class C16(c01.C01):
         return False
 
     def shrink(self, case):
+        if "probe" in case:
+            return
         evs = case["evs"]
         cps = case.get("checkpoints", [])
         # drop whole blocks from the end, then from the start (indices shift: only suffix removal is safe)
@@ -260,8 +381,11 @@ class C16(c01.C01):
         return [r for r in res if not self.satisfies(r["case"], r["impl"], r["S"])][:1]
 
     def distribution(self, cases):
-        d = super().distribution(cases)
+        d = super().distribution([c for c in cases if "probe" not in c])
         for c in cases:
+            if "probe" in c:
+                d["probe/" + c["probe"]] = d.get("probe/" + c["probe"], 0) + 1
+                continue
             k = "n+m/%d" % (10 ** len(str(max(1, c.get("n_plus_m", 1)) - 1)) if c.get("n_plus_m", 1) > 1 else 1)
             d[k] = d.get(k, 0) + 1
         return d
